@@ -108,6 +108,11 @@ def inproc_part(ctx, d):
         z = G.random_chunking(r, s)
         explicit.append(("x%d" % i, s, z))
         lines.append("x%d\t%s\tc:%s\t%d" % (i, resplib.hexs(s), ",".join(map(str, z)), ctx.seed))
+    # header numbers that are legal lengths only modulo 2^64 (and other out-of-range decimals), under
+    # whole / 1-byte / random chunkings incl. cuts inside the number
+    hn = G.header_number_streams()
+    for i, s in enumerate(hn):
+        lines.append("h%d\t%s\tr6\t%d" % (i, resplib.hexs(s), ctx.seed))
     # length boundaries: big arguments whose payload ends at / next to the places where a reader
     # that works in pieces (bufio's 4096 bytes, 2^15, 2^16, powers of two) hands over
     nb = 0
@@ -121,7 +126,7 @@ def inproc_part(ctx, d):
     impl, mod = run_inproc(d, lines, "main")
     cmod = model_chunked(d, explicit, "main")
     st = dict(streams=len(lines), evaluations=0, nontrivial=set(), shapes=set(), kinds=collections.Counter(),
-              exhaustive_small=sum(1 for l in lines if l.startswith("e")), explicit_chunkings=len(explicit), length_boundary_streams=nb,
+              exhaustive_small=sum(1 for l in lines if l.startswith("e")), explicit_chunkings=len(explicit), length_boundary_streams=nb, header_number_streams=len(hn),
               lines=lines, mod=mod)
     candidates = []
     for l in lines:
@@ -355,6 +360,9 @@ def tcp_part(ctx, d, inproc_stats):
     # see whether the decoded arguments of a command share memory)
     for i in range(60 if ctx.tier == "quick" else 600):
         raw.append(alias_case(r, ctx.seed, i))
+    hn = G.header_number_streams()
+    for i, s in enumerate(hn if ctx.tier != "quick" else r.sample(hn, 60)):
+        raw.append(("th%d" % i, s, None))
     pool = [l for l in inproc_stats["lines"] if l[0] in "esgm"]
     for i, l in enumerate(r.sample(pool, min(ns, len(pool)))):
         raw.append(("ts%d" % i, resplib.unhex(l.split("\t")[1]), None))
@@ -583,6 +591,7 @@ def run(ctx):
         tcp={k: (dict(v) if isinstance(v, collections.Counter) else v) for k, v in tst.items()},
         inproc_unreproduced_discrepancies=ist.get("unreproduced_discrepancies", []) if ist else [],
         length_boundary_streams=ist.get("length_boundary_streams", 0) if ist else 0,
+        header_number_streams=ist.get("header_number_streams", 0) if ist else 0,
         samples=samples or ["(none)"],
         exhaustive=False,
         correspondence="resp.ParseStream (chunked io.Reader) vs extracted events/events_chunked, event for event; real server over TCP vs extracted handle: reply count, self-close on error, keyspace effect, liveness",
